@@ -103,7 +103,7 @@ def scenario_naming_converge(binary, rng, fault=None, n_ops=45, scale=1.0, short
     "stop" (SIGSTOP for > 18 s: marked invalid by the others, ownership flips, then SIGCONT).
     scale multiplies the waits (the check doubles it for its single retry)."""
     if short_timeouts is None:
-        short_timeouts = fault is None
+        short_timeouts = False      # expiry (C13) must not mask a lost deregistration before the observation
     env = {"RNACOS_NAMING_PERPETUAL_INSTANCE_PROBE_INTERVAL_SECOND": "0"}
     if short_timeouts:
         env.update({"RNACOS_NAMING_HEALTH_TIMEOUT_SECOND": "4", "RNACOS_NAMING_INSTANCE_TIMEOUT_SECOND": "8"})
